@@ -2,7 +2,8 @@
    Statements only; proofs live in proofs/Deb822LexP.v and proofs/Deb822ParseP.v.
    Quantifier: every s : list N (every sequence of Unicode scalar values), no length bound. *)
 From V.model Require Import Base Deb822Lex Deb822Parse.
-From V.proofs Require Import Deb822LexP Deb822ParseP.
+From V.proofs Require Import Deb822LexP Deb822ParseP SourceTablesP.
+From V.gen Require Import Classes_gen.
 
 (* The tolerant reader returns (never Panic, never OutOfFuel) a tree whose text is the input;
    the strict reader succeeds with that same tree exactly when the tolerant one reports no
@@ -37,6 +38,26 @@ Qed.
 Check C01_parser_conserves : forall ts, exists t n,
   parse_tokens ts = Ok (t, n) /\ text t = concat (map snd ts).
 Print Assumptions C01_parser_conserves.
+
+(* Tie to the source: the character classes and the SyntaxKind numbering of the model are the
+   ones translate/classes.py regenerated from src/common.rs and src/lex.rs on this run. *)
+Theorem C01_source_tables : classes_recognised = true /\
+  (forall c, is_indent c = is_indent_src c /\ is_newline c = is_newline_src c /\
+             is_valid_key_char c = is_valid_key_char_src c /\
+             is_valid_initial_key_char c = is_valid_initial_key_char_src c) /\
+  map kind_code [KEY; VALUE; COLON; INDENT; NEWLINE; WHITESPACE; COMMENT; ERROR; ROOT; PARAGRAPH; ENTRY; EMPTY_LINE]
+    = deb822_kind_values_src.
+Proof.
+  split; [exact classes_recognised_ok|]. split; [|exact deb822_kind_values_ok].
+  intros c. split; [apply is_indent_src_eq|]. split; [apply is_newline_src_eq|]. split; [apply is_valid_key_char_src_eq|apply is_valid_initial_key_char_src_eq].
+Qed.
+Check C01_source_tables : classes_recognised = true /\
+  (forall c, is_indent c = is_indent_src c /\ is_newline c = is_newline_src c /\
+             is_valid_key_char c = is_valid_key_char_src c /\
+             is_valid_initial_key_char c = is_valid_initial_key_char_src c) /\
+  map kind_code [KEY; VALUE; COLON; INDENT; NEWLINE; WHITESPACE; COMMENT; ERROR; ROOT; PARAGRAPH; ENTRY; EMPTY_LINE]
+    = deb822_kind_values_src.
+Print Assumptions C01_source_tables.
 
 (* Non-vacuity: a malformed, CR/LF-mixed, non-ASCII input with errors; a clean one without. *)
 Example C01_ex_errors :
